@@ -695,6 +695,11 @@ impl<R: RsqApi> RsqObj<R> {
             "get" => so(r.get(us(a[0]))),
             "rank" => so(r.rank(a[0] as u8, us(a[1]))),
             "select" => so(r.select(a[0] as u8, us(a[1]))),
+            "prefetch" => {
+                r.prefetch_info(us(a[0]));
+                r.prefetch_data(us(a[0]));
+                "OK".into()
+            }
             "occs" => so(r.occs(a[0] as u8)),
             "occssmaller" => so(r.occs_smaller(a[0] as u8)),
             "uget" => format!("V{}", unsafe { r.get_unchecked(us(a[0])) }),
@@ -1018,6 +1023,11 @@ macro_rules! bv_iter {
 impl Obj for BvObj {
     fn q(&self, op: &str, a: &[u128]) -> String {
         guard(|| match &self.b {
+            Bv::I(b) if op == "nlines" => format!("V{}", b.n_lines()),
+            Bv::I(b) if op == "prefetch" => {
+                b.prefetch_line(us(a[0]));
+                "OK".into()
+            }
             Bv::I(b) => bv_q!(b, op, a),
             Bv::M(b) => bv_q!(b, op, a),
         })
